@@ -133,32 +133,56 @@ def r05_7_defaults(ctx, rid='R05.7'):
                       'applies a _yatiml_defaults override whenever the name is present in it', floor=3)
     a = fn(P, 'yatiml.introspection:class_subobjects')
     b = fn(P, 'yatiml.introspection:defaulted_attributes')
-    fa = a.copies.xnorm(ast.parse('first_optional').body[0].value) if 'first_optional' in a.copies.defs else None
-    fb = b.copies.xnorm(ast.parse('first_optional').body[0].value) if 'first_optional' in b.copies.defs else None
-    r.check(fa is not None and fa == fb, 'both compute first_optional = %s' % fa, 'yatiml.introspection:first-optional', 'yatiml/introspection.py',
-            'class_subobjects and defaulted_attributes disagree on which parameters are optional: %s vs %s' % (fa, fb))
-    # result[arg_name] = default in a whole loop over enumerate(defaults), arg_name = argspec.args[first_optional + i]
+    # class_subobjects: `required` = <index of the parameter> < FO
+    fa = None
+    for y in a.walk():
+        if isinstance(y, ast.Yield) and isinstance(y.value, ast.Tuple) and len(y.value.elts) == 3:
+            c = a.alpha.rewrite(y.value.elts[2])
+            if isinstance(c, ast.Compare) and len(c.ops) == 1 and isinstance(c.ops[0], ast.Lt) \
+                    and norm(c.left).startswith('<each:enumerate(') and norm(c.left).endswith('.args)>[0]'):
+                fa = norm(c.comparators[0])
+    # defaulted_attributes: result[ARGS[FO + i]] = default in a whole loop over enumerate(defaults)
+    fb = None
     stores = [n for n in b.walk() if isinstance(n, ast.Assign) and isinstance(n.targets[0], ast.Subscript)]
     ok = False
     for n in stores:
         loops = [l for l in S.enclosing_loops(n, b.node) if isinstance(l, ast.For)]
-        if loops and norm(loops[0].iter) == 'enumerate(defaults)' and S.whole_collection_loop(loops[0]):
-            iv, dv = (norm(x) for x in loops[0].target.elts)
-            keyv = n.targets[0].slice
-            krhs = [norm(x) for x in assigned_from(b, norm(keyv))] if isinstance(keyv, ast.Name) else [norm(keyv)]
-            if 'argspec.args[first_optional + %s]' % iv in krhs and norm(n.value) == dv:
-                inner = [(norm(x.ast), x.pol) for x in b.cfg.guard_nodes(b.nid(n)) if any(y is loops[0] for y in S._ancestors_list(x.ast))]
-                ok = not inner
-                # the override
-                ov = [m for m in ast.walk(loops[0]) if isinstance(m, ast.Assign) and norm(m.targets[0]) == dv]
-                ov_ok = False
-                for m in ov:
-                    ig = [(norm(x.ast), x.pol) for x in b.cfg.guard_nodes(b.nid(m)) if any(y is loops[0] for y in S._ancestors_list(x.ast))]
-                    if ig == [('%s in user_defaults' % norm(keyv), True)] and norm(m.value) == 'user_defaults[%s]' % norm(keyv):
+        if not loops:
+            continue
+        lo = loops[0]
+        it = b.alpha.text(lo.iter)
+        if not (it.startswith('enumerate(') and '.defaults' in it and 'getfullargspec(' in it and S.whole_collection_loop(lo)
+                and isinstance(lo.target, ast.Tuple) and len(lo.target.elts) == 2):
+            continue
+        iv, dv = (norm(x) for x in lo.target.elts)
+        ivt = '<each:%s>[0]' % it
+        keyv = n.targets[0].slice
+        kk = b.alpha.rewrite(keyv)
+        if isinstance(kk, ast.Subscript) and norm(kk.value).endswith('.args') and isinstance(kk.slice, ast.BinOp) \
+                and isinstance(kk.slice.op, ast.Add) and ivt in (norm(kk.slice.left), norm(kk.slice.right)) and norm(n.value) == dv:
+            fb = norm(kk.slice.right) if norm(kk.slice.left) == ivt else norm(kk.slice.left)
+            inner = [x for x in b.cfg.guard_nodes(b.nid(n)) if any(y is lo for y in S._ancestors_list(x.ast))]
+            ok = not inner
+            # the override
+            ov = [m for m in ast.walk(lo) if isinstance(m, ast.Assign) and norm(m.targets[0]) == dv]
+            ov_ok = False
+            kt = norm(kk)
+            for m in ov:
+                ig = [x for x in b.cfg.guard_nodes(b.nid(m)) if any(y is lo for y in S._ancestors_list(x.ast))]
+                if len(ig) == 1 and ig[0].pol and isinstance(ig[0].ast, ast.Compare) and len(ig[0].ast.ops) == 1 \
+                        and isinstance(ig[0].ast.ops[0], ast.In) and b.alpha.text(ig[0].ast.left) == kt:
+                    table = ig[0].ast.comparators[0]
+                    srcs = [norm(x) for x in assigned_from(b, norm(table))] if isinstance(table, ast.Name) else [norm(table)]
+                    cls_p = b.fi.params[0]
+                    if '%s._yatiml_defaults' % cls_p in srcs and isinstance(m.value, ast.Subscript) \
+                            and norm(m.value.value) == norm(table) and b.alpha.text(m.value.slice) == kt:
                         ov_ok = True
-                r.check(ov_ok, 'override: default = user_defaults[name] exactly when name in user_defaults', b.key('override'), b.loc(),
-                        'a _yatiml_defaults entry is not always applied (e.g. an explicit None override is ignored), or applied '
-                        'under another condition')
+            r.check(ov_ok, 'override: default = user_defaults[name] exactly when name in user_defaults', b.key('override'), b.loc(),
+                    'a _yatiml_defaults entry is not always applied (e.g. an explicit None override is ignored), or applied '
+                    'under another condition')
+    r.check(fa is not None and fa == fb, 'both compute the index of the first optional parameter as %s' % fa,
+            'yatiml.introspection:first-optional', 'yatiml/introspection.py',
+            'class_subobjects and defaulted_attributes disagree on which parameters are optional: %s vs %s' % (fa, fb))
     r.check(ok, 'every defaulted parameter is recorded with its default, unconditionally', b.key('defaults-recorded'), b.loc(),
             'defaulted_attributes does not record every defaulted parameter')
     r.done()
